@@ -136,7 +136,7 @@ func withDeadline(d time.Duration, f func()) bool {
 
 func checkC05(c *Ctx) {
 	r := c.Rng
-	c.Ev.Coverage.Rule = "Parse and ParseND on arbitrary bytes in 4 configurations, with and without a reused ParsedJson, each call under recover and a 120 s deadline; on every returned result all exported read methods are called from every AdvanceInto position (capped at 200) under recover and deadline; goroutine count before/after; the model's outcome for the same input must not be Crash/OutOfFuel. Streams: random bytes over a JSON-biased alphabet; every truncation and byte/token mutations of seed documents; nesting depth up to 10^5 (quick; one 10^6 probe in a child process re-confirms K1); maximally dense structurals ([[[[, ,,,,, [{},{}, \"\"\"\") at lengths around every multiple of 64, of 1408, 448/512 and 8192; a full index buffer ending on a carried (non-markup) index followed by a structural-free tail of 63..300 bytes; documents above 8 KiB with a missing/extra bracket. non-trivial = input that reaches stage 2 or returns a result; distinct = by input bytes"
+	c.Ev.Coverage.Rule = "Parse and ParseND on arbitrary bytes in 4 configurations, with and without a reused ParsedJson, each call under recover and a 120 s deadline; on every returned result all exported read methods are called from every AdvanceInto position (capped at 200) under recover and deadline; goroutine count before/after; bytes allocated by the read methods on results of inputs >= 20 kB against a budget linear in the input; the model's outcome for the same input must not be Crash/OutOfFuel. Streams: random bytes over a JSON-biased alphabet; every truncation and byte/token mutations of seed documents; nesting depth up to 10^5 (quick; one 10^6 probe in a child process re-confirms K1); maximally dense structurals ([[[[, ,,,,, [{},{}, \"\"\"\") at lengths around every multiple of 64, of 1408, 448/512 and 8192; a full index buffer ending on a carried (non-markup) index followed by a structural-free tail of 63..300 bytes; documents above 8 KiB with a missing/extra bracket. non-trivial = input that reaches stage 2 or returns a result; distinct = by input bytes"
 	g0 := runtime.NumGoroutine()
 	var reuse *simdjson.ParsedJson
 	ncase := 0
@@ -176,7 +176,30 @@ func checkC05(c *Ctx) {
 						}
 						deep := len(doc) < 50000 || bytes.Count(doc, []byte("[["))+bytes.Count(doc, []byte(`{"`)) < 20000
 						var pan string
-						okr := withDeadline(180*time.Second, func() { pan = exerciseReads(out.PJ, c.N(60, 400), deep) })
+						// memory: what the read methods allocate on a result must stay proportional to the
+						// input (a per-level preallocation sized by "everything that follows" is quadratic
+						// in the nesting depth and kills the process long before any deadline)
+						var m0, m1 runtime.MemStats
+						measure := len(doc) >= 20000
+						if measure {
+							runtime.ReadMemStats(&m0)
+						}
+						npos := c.N(60, 400)
+						okr := withDeadline(180*time.Second, func() { pan = exerciseReads(out.PJ, npos, deep) })
+						if measure && okr {
+							runtime.ReadMemStats(&m1)
+							alloc := m1.TotalAlloc - m0.TotalAlloc
+							// Array.Interface preallocates up to 1024 slots (16 KiB) per nesting level, so a
+							// deep document legitimately costs ~16 KiB per tape entry per Interface-like call
+							// (two of them per position); the budget is one and a half times that, linear in the tape
+							budget := uint64(256<<20) + uint64(npos)*uint64(len(out.PJ.Tape))*(48<<10)
+							c.Ev.Dist(fmt.Sprintf("read-alloc-per-input-byte:%s", sizeBucket(int(alloc/uint64(len(doc))))))
+							if alloc > budget {
+								info["allocated_bytes"], info["budget_bytes"] = alloc, budget
+								c.Violate("resource", fmt.Sprintf("the read methods allocated %d MiB on the result of a %d-byte input (budget %d MiB: linear in the input)", alloc>>20, len(doc), budget>>20), "read-alloc", info)
+								return
+							}
+						}
 						if !okr {
 							c.Violate("hang", "a read method did not return within 180 s", "hang-read", info)
 							aborted = true
@@ -232,6 +255,8 @@ func checkC05(c *Ctx) {
 			run("mutation", mutate(r, doc), k%4 == 0)
 		}
 	}
+	run("deep", []byte(strings.Repeat(`{"a":`, 15000)+"1"+strings.Repeat("}", 15000)), false)
+	run("deep", []byte(strings.Repeat(`[{"a":`, 7000)+"1"+strings.Repeat("}]", 7000)), false)
 	for _, d := range []int{1, 100, 127, 128, 129, 1000, 10000, 100000} {
 		run("deep", []byte(strings.Repeat("[", d)+strings.Repeat("]", d)), false)
 		run("deep", []byte(strings.Repeat(`{"a":`, d)+"1"+strings.Repeat("}", d)), false)
